@@ -180,7 +180,7 @@ def regen_session(rnd, wd, tid0):
     """Up to three consecutive pytest processes on one project (flags, then usually none, ...).
     Returns events (each process = one session with its own tid) and details."""
     ptypes = {'p0': 'string', 'p1': 'textfile', 'p2': 'textfiles', 'p3': 'textfiles', 'p4': 'binary', 'p5': 'dataframe',
-              'p6': 'ondisk', 'p7': 'csvframe'}
+              'p6': 'ondisk', 'p7': 'csvframe', 'p8': 'csv2pq'}
     cnames = ['c%d' % i for i in range(20)]
     kinds = ['k0', 'k1', 'k2', 'k3']
     variant = rnd.randint(0, 3)
@@ -194,7 +194,7 @@ def regen_session(rnd, wd, tid0):
     nsteps = rnd.randint(3, 8)
     steps = []
     for _ in range(nsteps):
-        ty = rnd.choice(['string', 'textfile', 'textfiles', 'binary', 'dataframe', 'ondisk', 'csvframe'])
+        ty = rnd.choice(['string', 'textfile', 'textfiles', 'binary', 'dataframe', 'ondisk', 'csvframe', 'csv2pq'])
         paths = [p for p, t in ptypes.items() if t == ty]
         if ty == 'textfiles' and rnd.random() < 0.5:
             paths = paths[::-1]
